@@ -95,6 +95,11 @@ def rule_L(ck, rule="L"):
                     n = simplify(b.args[2], fb)
                     if n.is_const() and n.c == 0:
                         continue
+                    # a copy of exactly one trivially copyable field object (element-wise relocation stores such a
+                    # field with a small constant-size copy) relocates no object of T
+                    if n.is_const() and b.loops and n.c in {p_.size for p_ in tu.pl.params if p_.trivial} \
+                            and n.c not in {p_.size for p_ in tu.pl.params if not p_.trivial}:
+                        continue
                     # some constructor event of T on a path compatible with the bulk copy, into the same destination block
                     ok = any(fb.eval(simplify_cond(c.guard, fb)) is not False and _same_block(it, c.args[0], b.args[0]) for c in ctors)
                     rec.ob(rule + "2", ok, {"config": tu.cfg, "witness": fn, "obligation": "objects of %s relocated by %s are (re)constructed by their own constructor" % (T, b.kind)})
